@@ -35,18 +35,18 @@ Fixpoint run_streams (x : xcfg) (n : nat) (a : list Z) (m : mem) : option mem :=
   | _, [] => None
   end.
 
-(* CMD exec = 1 : ncores ofm_ublock ifm_ublock nruns [rg addr len bytes..].. nouts [rg addr len].. nstreams [nwords w..]..
+(* CMD exec = 1 : ncores ofm_ublock ifm_ublock lut_address nruns [rg addr len bytes..].. nouts [rg addr len].. nstreams [nwords w..]..
    gives 1 output-bytes.. or 0 (an operation outside the modelled subset / malformed stream) *)
 Definition run_exec (a : list Z) : list Z :=
   match a with
-  | nc :: ou :: iu :: nruns :: t =>
+  | nc :: ou :: iu :: la :: nruns :: t =>
       let '(m, t1) := load_runs (Z.to_nat nruns) t [] in
       match t1 with
       | nouts :: t2 =>
           let '(outs, t3) := take_outs (Z.to_nat nouts) t2 in
           match t3 with
           | ns :: t4 =>
-              match run_streams {| x_ncores := nc; x_ofm_ublock := ou; x_ifm_ublock := iu |} (Z.to_nat ns) t4 m with
+              match run_streams {| x_ncores := nc; x_ofm_ublock := ou; x_ifm_ublock := iu; x_lut_addr := la |} (Z.to_nat ns) t4 m with
               | Some m' => 1 :: flat_map (fun o => let '(rg, addr, len) := o in rd_bytes (get_bank m' rg) addr (Z.to_nat len)) outs
               | None => [0]
               end
